@@ -488,7 +488,13 @@ func (e *MetaCDC) Create(req *request.CreateRequest) (resp *request.CreateRespon
 		return nil, err
 	}
 
+	reverted := false
 	revertCollectionNames := func() {
+		// the names should be removed only once, otherwise the same exclusion of another task is removed too
+		if reverted {
+			return
+		}
+		reverted = true
 		e.collectionNames.Lock()
 		defer e.collectionNames.Unlock()
 		e.collectionNames.excludeData[uKey] = removeOnce(e.collectionNames.excludeData[uKey], excludeCollectionNames)
@@ -632,6 +638,8 @@ func (e *MetaCDC) Create(req *request.CreateRequest) (resp *request.CreateRespon
 			log.Warn("fail to delete the task", zap.String("task_id", info.TaskID), zap.Error(deleteErr))
 			return nil, servererror.NewServerError(deleteErr)
 		}
+		// the delete has removed the names of the task
+		reverted = true
 		return nil, err
 	}
 
